@@ -150,6 +150,9 @@ impl ISocket for RepSocket {
       }
     }
 
+    #[cfg(rzmq_verif)]
+    crate::verif::sched::gate("rep.recv.checked").await;
+
     let rcvtimeo_opt = self.core_state_read().options.rcvtimeo;
     let (peer_info, mut payload_frames) = self.recv_complete_request(rcvtimeo_opt).await?;
     *self.state.lock() = RepState::ReceivedRequest(peer_info);
@@ -180,6 +183,9 @@ impl ISocket for RepSocket {
         }
       }
     };
+
+    #[cfg(rzmq_verif)]
+    crate::verif::sched::gate("rep.send.taken").await;
 
     let conn_iface: Arc<dyn ISocketConnection> = {
       let core_s_read = self.core_state_read();
